@@ -75,6 +75,26 @@ Theorem c13_show_reflects_sets : forall e l, wf_env e -> Forall (input_ok e) l -
 Proof. exact show_reflects_sets. Qed.
 Print Assumptions c13_show_reflects_sets.
 
+(** What is not a SET changes nothing: an ordinary statement, a transaction, RELOAD, PAUSE /
+    RESUME or a refused checkout between two commands is a no-op on the session's command
+    state; with unchanged settings the replies are those of the commands alone (so
+    c13_show_reflects_sets holds across them) ... *)
+Theorem c13_other_events_are_noops : forall e l st, same_env e l ->
+  run_ev e st l = (e, fst (run e st (cmds_of l)), snd (run e st (cmds_of l))).
+Proof. exact run_ev_same_env. Qed.
+Print Assumptions c13_other_events_are_noops.
+
+(** ... and whatever settings a RELOAD that rebuilt the pool brings (pool size, default role,
+    shard count, sharding function), SHOW keeps reporting every explicit SET: the selected
+    shard (even one the new configuration no longer has), a role / parser choice, primary reads. *)
+Theorem c13_explicit_sets_survive_reload : forall e e' st,
+  snd (handle e st ShowShard [] 0) = snd (handle e' st ShowShard [] 0) /\
+  (st_role st <> None \/ st_parser st <> None ->
+   snd (handle e st ShowServerRole [] 0) = snd (handle e' st ShowServerRole [] 0)) /\
+  (st_preads st <> None -> snd (handle e st ShowPrimaryReads [] 0) = snd (handle e' st ShowPrimaryReads [] 0)).
+Proof. exact explicit_sets_survive. Qed.
+Print Assumptions c13_explicit_sets_survive_reload.
+
 (** Numbers of any length: recognised, and when they do not fit they are refused with an
     error reply and the state is exactly what it was. *)
 Theorem c13_any_digits_recognised : forall d, digits1 d ->
